@@ -49,6 +49,19 @@ def prepare(cases, scratch, builder, optimize=False, endian="both", single_tu=Fa
     return out
 
 
+def json_bound(t):
+    """An upper bound on the length of the JSON text of a value of type t (the C Json function has no length
+    parameter: the buffer the harness hands it must be large enough whatever the field names are)."""
+    k = t["k"]
+    if k == "alias":
+        return json_bound(t["to"])
+    if k == "array":
+        return 2 + t["cap"] * (json_bound(t["elem"]) + 1)
+    if k == "msg":
+        return 2 + sum(len(f["name"]) + 4 + json_bound(f["t"]) for f in t["fields"])
+    return 24
+
+
 def drive_case(c, lib, worker, want, guard="none", tag="", be=False):
     """Runs the C API on every value of the case and records events."""
     t = c.prog["rtype"]
@@ -68,7 +81,7 @@ def drive_case(c, lib, worker, want, guard="none", tag="", be=False):
         ops.append(["enc", img.hex()])
         plan.append(("enc", vi, img))
         if "json" in want:
-            ops.append(["json", img.hex(), 64 + 40 * max(1, len(lib._order())) + 300 * 64])
+            ops.append(["json", img.hex(), max(64 + 40 * max(1, len(lib._order())) + 300 * 64, 64 + 2 * json_bound(t))])
             plan.append(("json", vi, img))
     job = {"so": lib.so, "enc": "Encode" + top, "dec": "Decode" + top,
            "json": ("Json" + top) if "json" in want else None,
